@@ -1108,6 +1108,20 @@ PROPS["C13"] = dict(
     technique="Coq proofs of the clauses pyxis itself must guarantee + rustc type-check oracle on the emitted crate",
 )
 
+import c12  # noqa: E402
+PROPS["C12"] = dict(
+    runner=c12.runner, aspects=["verdict"], n=(1500, 40000),
+    rule="tools/c12.py: per 10 inputs 2 token soups (vocabulary of keywords, punctuation, boundary numbers, raw identifiers, non-ASCII), 3 token-level mutations of valid generated files, "
+         "2 valid files with 1..3 integers replaced by boundary values (2^31, 2^32, 2^63-1, 2^63, 2^64-1, 2^64, 2^128, negative, suffixed), 1 deep/long input (pointer and array nesting up to 800, 2400 fields), "
+         "1 cyclic module/type graph, 1 absurd-number or misuse pattern; plus API cases (pointer sizes 0,1,2,3,5,16,2^31; a module added twice; the root module replaced; invalid identifiers). Each case runs in a harness process "
+         "with a wall-clock bound; distinct = distinct input; every distinct input is non-trivial for this property",
+    level_text="Proved in Coq (Properties/C12.v): the resolution loop terminates within 1 + #unresolved rounds for every item-count-preserving schedule (all hook schedules, hence all hash orders); the alignment check's unwraps are unreachable; "
+               "size/offset/lcm arithmetic is checked (no wrapped value). Everything the model cannot exhibit (lexer, syn recursion, format_ident!, time, memory) is decided by the monitor: no generated input may make the real pyxis panic, hang or crash, "
+               "both entry points must agree, parse errors must carry file:line:column inside the file, and for inputs that parse the model must agree on the verdict class. Known findings: raw identifiers (F6f), pointer size 0 through the API (F6g), invalid identifiers through the API (F6i).",
+    level_note="Trusted: Coq kernel; model validated by this run's correspondence; the process-level bound (10 s per case) as the definition of 'hang'; only the debug profile is exercised (overflow checks on).",
+    technique="Coq termination/no-panic proofs on the model + bounded-process robustness monitor on the real implementation",
+)
+
 NOT_YET = {}
 
 import c03  # noqa: E402
